@@ -62,6 +62,15 @@ long mon_live_effective(void) {
   return live;
 }
 
+/* matrix headers live in a static pool when the header cache is compiled in: a leaked header is invisible to the
+ * block balance there, so the pool's own count (hook, guard M4RI_VERIF) is compared as well */
+extern void mzd_verif_header_cache_stats(int *blocks, int *slots_in_use);
+long mon_headers_in_use(void) {
+  int b = 0, u = 0;
+  mzd_verif_header_cache_stats(&b, &u);
+  return u;
+}
+
 static long vg_errors(void) {
 #ifdef HAVE_VALGRIND
   return (long)VALGRIND_COUNT_ERRORS;
@@ -106,7 +115,7 @@ int mon_func(const mon_args_t *a) {
       c.ip[6] = RWS[(g % NC + (g / NC) % NC + g / ((long)NC * NC)) % 5];
     }
     op->gen(&c, &r, a->maxdim);
-    long live0 = mon_live_effective(), vg0 = vg_errors();
+    long live0 = mon_live_effective(), vg0 = vg_errors(), hdr0 = mon_headers_in_use();
     opcase_place(&c, &r, a->policy);
     begin_case(&c, idx);
     opcase_run(&c);
@@ -114,11 +123,15 @@ int mon_func(const mon_args_t *a) {
     HX.nontrivial = c.nontrivial;
     opcase_cleanup(&c);
     if (a->balance) {
-      long live1 = mon_live_effective();
+      long live1 = mon_live_effective(), hdr1 = mon_headers_in_use();
       if (live1 != live0) {
         char key[256];
         snprintf(key, sizeof key, "%s|own|%s|leak", op->name, c.pcls);
         hx_fail(key, "allocation balance: %ld library blocks live before the call, %ld after everything was freed :: %s", live0, live1, c.desc);
+      } else if (hdr1 != hdr0) {
+        char key[256];
+        snprintf(key, sizeof key, "%s|own|%s|leak", op->name, c.pcls);
+        hx_fail(key, "header pool: %ld matrix headers in use before the call, %ld after everything was freed :: %s", hdr0, hdr1, c.desc);
       }
     }
     long vg1 = vg_errors();
@@ -170,7 +183,7 @@ int mon_views(const mon_args_t *a) {
       int s = slots[rng_int(&r, 0, nslots - 1)];
       c.plc[s] = rng_chance(&r, 1, 2) ? PL_WIN_EVEN : PL_WIN_ODD;
     }
-    long live0 = mon_live_effective();
+    long live0 = mon_live_effective(), hdr0 = mon_headers_in_use();
     opcase_place(&c, &r, 1);
     begin_case(&c, idx);
     opcase_run(&c);
@@ -205,11 +218,15 @@ int mon_views(const mon_args_t *a) {
       opcase_cleanup(&d);
     }
     opcase_cleanup(&c);
-    long live1 = mon_live_effective();
+    long live1 = mon_live_effective(), hdr1 = mon_headers_in_use();
     if (a->balance && live1 != live0) {
       char key[256];
       snprintf(key, sizeof key, "%s|win|%s|leak", op->name, c.pcls);
       hx_fail(key, "allocation balance: %ld blocks live before, %ld after :: %s", live0, live1, c.desc);
+    } else if (a->balance && hdr1 != hdr0) {
+      char key[256];
+      snprintf(key, sizeof key, "%s|win|%s|leak", op->name, c.pcls);
+      hx_fail(key, "header pool: %ld matrix headers in use before, %ld after :: %s", hdr0, hdr1, c.desc);
     }
     hx_end();
   }
@@ -254,7 +271,7 @@ int mon_pure(const mon_args_t *a) {
     AW_poison = 0;
     m4ri_mmc_cleanup();
     long cnt0 = AW_total_calls_get();
-    opcase_place(&c, &r, 0);
+    opcase_place(&c, &r, a->policy);
     begin_case(&c, idx);
     opcase_run(&c);
     opcase_check(&c);
@@ -311,7 +328,7 @@ int mon_pure(const mon_args_t *a) {
       opcase_t d;
       opcase_clone_inputs(&d, &c);
       dirty_destinations(&d, &re);
-      opcase_place(&d, &re, 0);
+      opcase_place(&d, &re, a->policy);
       opcase_run(&d);
       uint64_t dg = opcase_digest(&d);
       if (dg != base) {
